@@ -62,7 +62,9 @@ CHECKS = [
         "class/interface structures are linked to their type in both directions; instance structures give ctype and read-only "
         "fields; interface / prerequisite lists are filtered on a copy (_resolve_and_filter_type_list: the given list is never "
         "changed, every entry is resolved once and in order); plus the emission of property flags by the GIR writer.",
-        "Trusted: givc, ElementTree (findall), Node.create_type, Transformer.resolve_type, list.remove (coarse). Signals, parent-chain fallback, boxed "
+        "Also: _introspect_signals (one Signal per reported signal with its name, run stage, no-recurse / detailed / action / no-hooks "
+        "flags and one parameter per <param>, the first being the instance). "
+        "Trusted: givc, ElementTree (findall), Node.create_type, Transformer.resolve_type, list.remove (coarse). The parent-chain fallback, boxed "
         "pairing, virtual methods and error quarks are not yet under contract; gdump.c is out of scope.", "DESIGN.md section 4 C12"),
     chk("C03", "Contracts on the real identifier-level annotation functions: generic metadata (doc, Since/Deprecated/Stability, skip, "
         "foreign, constructor only on functions, method, set/get-property), block-name selection, and rename-to as a mutually "
